@@ -836,7 +836,9 @@ fn create_archive(
         return Ok(());
     }
 
-    Ok(())
+    // Legacy batch mode is not available in this build: refuse instead of reporting
+    // success without having written an archive.
+    anyhow::bail!("--batch mode is not supported; omit --batch to use the streaming compressor")
 }
 
 fn write_bin<P: AsRef<Path>>(path: P, data: &[u8]) -> Result<()> {
